@@ -71,7 +71,7 @@ func c05Generated(t *fw.T) {
 		o.NoModuleItems = true
 	}
 	prog := gen.JSProgram(r, o)
-	st := gen.JSStyle{Parens: r.Intn(3), Semi: r.Intn(3), WS: r.Intn(3), Seed: r.Int63()}
+	st := gen.JSStyle{Parens: r.Intn(3), Semi: r.Intn(3), WS: r.Intn(3), Seed: r.Int63(), Bang: []int{0, 0, 10, 40}[r.Intn(4)]}
 	src, _ := gen.JSSpell(prog, st)
 	opts := jsOptions[:2]
 	if o.NoModuleItems && !hasKind(prog.Root, "directive") {
@@ -81,6 +81,12 @@ func c05Generated(t *fw.T) {
 	indent := -1
 	if r.Intn(2) == 0 {
 		indent = r.Intn(9)
+	}
+	if !op.Inline && r.Intn(10) == 0 {
+		src = "#!/usr/bin/env node\n" + src
+	}
+	if st.Bang > 0 {
+		t.Count("with.bang.comments", 1)
 	}
 	t.Desc(&c05Case{Kind: "generated", Src: []byte(src), Opts: optName(op)})
 	if !c05RoundTrip(t, []byte(src), op, indent) {
@@ -159,7 +165,7 @@ func init() {
 		Rule: "case = one valid-UTF-8 input (a random spelling of a generated ES2022 program; a literal-stress snippet with line continuations, multi-line templates, numeric literals before '.', bang comments wrapped in 0-6 blocks; a corpus entry; a mutated corpus entry) x Options x printing path (JSString or JS through an outer parse.Indenter of width 0-8); " +
 			"for every accepted input the printed text must be accepted, its tree must equal the original after removing GroupExpr (compared through String()), and printing it again must reproduce the text byte for byte. non-trivial = accepted input; distinct by bytes",
 		Assume: []string{"tree identity is observed through AST.String() after removing GroupExpr nodes by reflection"},
-		Required: []string{"roundtrips", "with.literals", "fuzz.accepted", "probes"},
+		Required: []string{"roundtrips", "with.literals", "with.bang.comments", "fuzz.accepted", "probes"},
 		Streams: []fw.Stream{
 			{Name: "probes", Quick: len(c05Probes), Thorough: len(c05Probes), Run: c05Probe},
 			{Name: "generated", Quick: 150000, Thorough: 4000000, Run: c05Generated},
